@@ -71,11 +71,11 @@ func TestVtraceCallSeq(t *testing.T) {
 		f.Write(append(data, '\n'))
 	}
 	keyVariants := func() ([][]byte, []string) {
-		a, b := ref.B32(randScalar(rng)), ref.B32(randScalar(rng))
+		a, b := ref.B32(zvRandScalar(rng)), ref.B32(zvRandScalar(rng))
 		lz := ref.B32(new(big.Int).SetBytes(rng.Bytes(20)))
-		one := ref.B32(bi(1))
-		hi := ref.B32(new(big.Int).Sub(ref.SM2N, bi(2)))
-		w := ref.B32(randScalar(rng))
+		one := ref.B32(zvBi(1))
+		hi := ref.B32(new(big.Int).Sub(ref.SM2N, zvBi(2)))
+		w := ref.B32(zvRandScalar(rng))
 		for i := 8; i < 24; i++ {
 			w[i] = 0
 		}
@@ -93,7 +93,7 @@ func TestVtraceCallSeq(t *testing.T) {
 		// ---- SignHashed: public digest and nonce stream fixed, the private key varies
 		{
 			e := rng.Bytes(32)
-			stream := append(ref.B32(randScalar(rng)), rng.Bytes(64)...)
+			stream := append(ref.B32(zvRandScalar(rng)), rng.Bytes(64)...)
 			keys, names := keyVariants()
 			SignHashed(bytes.NewReader(stream), keys[1], e) // warm-up (stack, allocator, lazily built state)
 			for v, k := range keys {
@@ -104,7 +104,7 @@ func TestVtraceCallSeq(t *testing.T) {
 				})
 			}
 			// invalid keys among themselves
-			for v, k := range [][]byte{make([]byte, 32), ref.B32(new(big.Int).Sub(ref.SM2N, bi(1))), ref.B32(ref.SM2N), bytes.Repeat([]byte{0xff}, 32)} {
+			for v, k := range [][]byte{make([]byte, 32), ref.B32(new(big.Int).Sub(ref.SM2N, zvBi(1))), ref.B32(ref.SM2N), bytes.Repeat([]byte{0xff}, 32)} {
 				k := k
 				run(fmt.Sprintf("SignHashed/secret=invalid-key#%d", round), []string{"zero", "n-1", "n", "all-ff"}[v], func() string {
 					_, _, err := SignHashed(bytes.NewReader(stream), k, e)
@@ -115,7 +115,7 @@ func TestVtraceCallSeq(t *testing.T) {
 		// ---- SignHashed: key and digest fixed, the nonce varies (first candidate acceptable)
 		{
 			e := rng.Bytes(32)
-			d := ref.B32(randScalar(rng))
+			d := ref.B32(zvRandScalar(rng))
 			ks, names := keyVariants()
 			SignHashed(bytes.NewReader(append(append([]byte{}, ks[1]...), rng.Bytes(64)...)), d, e)
 			for v, k := range ks {
@@ -128,7 +128,7 @@ func TestVtraceCallSeq(t *testing.T) {
 			// one early rejection, then an acceptable candidate
 			// (which rule rejects is a verdict of its own: candidates at or above n among themselves)
 			over := new(big.Int).Add(ref.SM2N, new(big.Int).SetBytes(rng.Bytes(12)))
-			for v, first := range [][]byte{ref.B32(ref.SM2N), bytes.Repeat([]byte{0xff}, 32), ref.B32(over), ref.B32(new(big.Int).Add(ref.SM2N, bi(1)))} {
+			for v, first := range [][]byte{ref.B32(ref.SM2N), bytes.Repeat([]byte{0xff}, 32), ref.B32(over), ref.B32(new(big.Int).Add(ref.SM2N, zvBi(1)))} {
 				stream := append(append(append([]byte{}, first...), ks[v]...), rng.Bytes(64)...)
 				run(fmt.Sprintf("SignHashed/secret=nonce,first-candidate-at-or-above-n#%d", round), []string{"n-first", "ff-first", "random-above-n-first", "n+1-first"}[v], func() string {
 					_, _, err := SignHashed(bytes.NewReader(stream), d, e)
